@@ -31,6 +31,8 @@ CHECKS = {
          'RNG-seam simulation with scripted adversarial variates, bounded-liveness check, reference model of the samplers'),
  'C11': ('Seeded programs over a Model treated as a state machine: priors (named / unnamed, equal definitions with distinct identity, deliberate name collisions) are placed - shared, wrapped in arithmetic / ufunc / complex transformations, in lists - at a random subset of sites of a sphere, layered sphere or sphere collection, of a lens theory, of alpha and of the optics; then a random sequence of queries, add_tie calls (legal and illegal subsets, composing), writes into every object the model hands back, scatterer from_parameters round trips (incl. rigid clusters) and restarts through the text form (save, kill the interpreter, load in a pristine one). After every step a reference model (partition of sites by prior identity with union-find for ties + one expression tree per site) must agree: parameter count, unique names, every probe value at every place its prior was used, transformations applied, fixed values untouched, list- and dict-keyed calls equal, guesses used, illegal ties refused without effect, the model never modified by a query, and the reloaded model answering every query like the saved one.', '5 C11',
          'state-machine simulation against a union-find reference model, with restart-through-text and aliasing (purity) faults'),
+ 'C12': ('Seeded search over simulated inference sessions: models (alpha / exact with a counting calc_func seam, optics from model or data or both, model or data noise, overlap constraints) are evaluated at vectors inside, on and outside the support, giving invalid scatterers or violating the constraint, name-keyed and list-ordered, on full and flattened-subset data and with per-evaluation random pixel subsets (reconstructed from the RNG state at the seam), interleaved with foreign RNG draws; and shipped, as LnpostWrapper.evaluate bound-method pickles through choose_pool, to a simulated pool of real worker processes forked from the master at an earlier point of its history, with seeded dispatch order, duplicate deliveries, worker deaths with retry, unrelated Multisphere / T-matrix / RNG work and an armed solver failure inside workers: every reply must equal the master value bit for bit (or the documented -inf under the solver failure). Local values are checked against an independent closed-form Gaussian posterior built from the public calc_holo.', '5 C12',
+         'simulated worker pool (fork, pickled tasks, duplicate / reorder / death faults) + effect counting seam + RNG-seam reconstruction + closed-form reference posterior'),
 }
 
 def main():
